@@ -133,7 +133,8 @@ func spec_nz(table [][]int, i int, k int) bool {
 // trim of leading blank slots: "sh" slots have been cut so far, sh == before(len(ret)) - len(ret)
 //@ loop 11: invariant len(ret) == len(check) && len(row) == len(table) && len(ret) <= before(len(ret))
 //@ loop 11: decreases len(ret)
-//@ loop 11: invariant forall p int :: 0 <= p && p < len(ret) ==> ret[p] == before(ret)[p + before(len(ret)) - len(ret)] && check[p] == before(check)[p + before(len(ret)) - len(ret)]
+//@ loop 11: end_of_body len(ret) == at_head(len(ret)) - 1 && len(check) == at_head(len(check)) - 1 && (forall p int :: {ret[p]} 0 <= p && p < len(ret) ==> ret[p] == at_head(ret)[p+1] && check[p] == at_head(check)[p+1])
+//@ loop 11: invariant forall p int :: {ret[p]; check[p]} 0 <= p && p < len(ret) ==> ret[p] == before(ret)[p + before(len(ret)) - len(ret)] && check[p] == before(check)[p + before(len(ret)) - len(ret)]
 //@ loop 11: invariant forall j2 int :: 0 <= j2 && j2 < len(table) ==> row[j2] == before(row)[j2] - (before(len(ret)) - len(ret))
 //@ loop 11: invariant forall p int :: 0 <= p && p < before(len(ret)) - len(ret) ==> before(ret)[p] == 0
 //@ loop 12: invariant 0 <= j && j <= len(row) && len(row) == len(table)
